@@ -614,6 +614,35 @@ theorem divi_eq_model (a b : Int) :
 example : Gen.C08.diviGuard 1 0 = true ∧ Gen.C08.diviGuard minInt64 (-1) = false ∧ Gen.C08.diviVal 7 (-2) = -3 ∧
     Gen.C08.modiVal (-7) 2 = -1 := by decide
 
+/-! ### `{! …}` : the integer operators of stdmath (`%`, `<<`, `>>`) -/
+
+/-- **stdmath's integer operators are guarded, as regenerated from /repo**: the three entries of `ops` that can
+    panic are `v := int64(right); if GUARD { return math.NaN() }; return float64(int64(left) OP v)` (every statement
+    pinned), and for all integers the regenerated guard admits only a non-zero divisor (`%`) / a non-negative
+    shift count (`<<`, `>>`: Go panics on negative counts only, counts ≥ 64 are defined) and is exactly where the
+    formula model (`Rare.C19.modI` / `shlI` / `shrI`, the operators behind `C19.int_ops_guarded`) answers
+    "not a number"; no OTHER entry of the table contains an integer remainder, quotient or shift.  A guard turned
+    into `r < 0`, `n <= -2`, or dropped, breaks this theorem. -/
+theorem math_int_ops_guarded (l v : Int) :
+    (Gen.C08.mathModGuard v = false → v ≠ 0) ∧ ((C19.modI l v).isNone = Gen.C08.mathModGuard v) ∧
+    (Gen.C08.mathShlGuard v = false → 0 ≤ v) ∧ ((C19.shlI l v).isNone = Gen.C08.mathShlGuard v) ∧
+    (Gen.C08.mathShrGuard v = false → 0 ≤ v) ∧ ((C19.shrI l v).isNone = Gen.C08.mathShrGuard v) ∧
+    Gen.C08.mathIntOpShape =
+      ["%: r := int64(right)", "%: if r == 0 { return math.NaN() }", "%: return float64(int64(left) % r)",
+       "<<: n := int64(right)", "<<: if n < 0 { return math.NaN() }", "<<: return float64(int64(left) << n)",
+       ">>: n := int64(right)", ">>: if n < 0 { return math.NaN() }", ">>: return float64(int64(left) >> n)"] ∧
+    Gen.C08.mathOtherIntOps = [] := by
+  refine ⟨?_, ?_, ?_, ?_, ?_, ?_, by decide, rfl⟩
+  · simp [Gen.C08.mathModGuard]
+  · by_cases h : v = 0 <;> simp [Gen.C08.mathModGuard, C19.modI, h]
+  · simp [Gen.C08.mathShlGuard]
+  · by_cases h : v < 0 <;> simp [Gen.C08.mathShlGuard, C19.shlI, h]
+  · simp [Gen.C08.mathShrGuard]
+  · by_cases h : v < 0 <;> simp [Gen.C08.mathShrGuard, C19.shrI, h]
+
+example : Gen.C08.mathModGuard 0 = true ∧ Gen.C08.mathModGuard (-3) = false ∧ Gen.C08.mathShlGuard (-1) = true ∧
+    Gen.C08.mathShlGuard 64 = false ∧ C19.shlI 1 64 = some 0 ∧ C19.shrI (-8) 70 = some (-1) ∧ C19.modI (-7) 2 = some (-1) := by decide
+
 /-! ### `bucket` / `bucketrange` : the constant size is the divisor of `val / bucketSize` -/
 
 /-- A constant bucket size that passes the guard is positive: `val / bucketSize` cannot divide by zero
